@@ -101,9 +101,89 @@ Fixpoint run_ops (msize : Z) (st : sys) (slots : list cEnt) (ops : list sexp) : 
         :: run_ops msize st' slots' rest
   end.
 
+(* ---- long histories: (long msize rounds keep_every) ----
+   One attach, then `rounds` rounds, round i walking from the root with a name list chosen by
+   i mod 5 (clone / one name / two names answered partially / invalid path / ("dir1" ".")),
+   the entry obtained clunked (i even) or removed (i odd) at once, or kept when keep_every
+   divides i; at the end everything kept is clunked.  The history and the session's answers are
+   a function of the three parameters (the harness scripts its FileSys accordingly and reports
+   whether the answers were the scripted ones), so the case stays short while the model has to
+   predict the fid of EVERY call: walks whose newfid is not the previous newfid + 1 are listed,
+   and all calls go into a rolling checksum. *)
+Definition hmix (h v : N) : N := ((h * 1000003 + v + 1) mod 2147483647)%N.
+Definition hcall (h : N) (c : option scall) : N :=
+  match c with
+  | None => h
+  | Some (SAttach f a _ _) => hmix (hmix (hmix h 1) f) a
+  | Some (SWalk f nf names) => hmix (hmix (hmix (hmix h 2) f) nf) (N.of_nat (List.length names))
+  | Some (SClunk f) => hmix (hmix h 3) f
+  | Some (SRemove f) => hmix (hmix h 4) f
+  | Some _ => hmix h 9
+  end.
+
+Record lst := { l_sys : sys; l_i : N; l_walks : N; l_prev : N; l_breaks : list sexp; l_hash : N; l_kept : list cEnt }.
+
+Definition q7 : qid := (128, 0, 7)%N.
+Definition long_names (k : N) : list bstr :=
+  match k with
+  | 0%N => []
+  | 1%N => [str "a"]
+  | 2%N => [str "a"; str "b"]
+  | 3%N => [str "x/y"]
+  | _ => [str "dir1"; str "."]
+  end.
+Definition long_ans (k : N) : sres := match k with 0%N => AWalk [] | _ => AWalk [q7] end.
+
+Definition long_round (msize : Z) (keep_every : N) (root : cEnt) (s : lst) : lst :=
+  let i := l_i s in
+  let k := (i mod 5)%N in
+  let '(st1, c, r) := step msize (l_sys s) (OWalk root (long_names k)) (long_ans k) in
+  let h1 := hcall (l_hash s) c in
+  let '(walks, prev, breaks) :=
+    match c with
+    | Some (SWalk _ nf _) =>
+        ((l_walks s + 1)%N, nf,
+         if (nf =? l_prev s + 1)%N then l_breaks s else SList [snat (l_walks s); snat nf] :: l_breaks s)
+    | _ => (l_walks s, l_prev s, l_breaks s)
+    end in
+  match r with
+  | CWalk _ e =>
+      if negb (keep_every =? 0)%N && (i mod keep_every =? 0)%N then
+        {| l_sys := st1; l_i := (i + 1)%N; l_walks := walks; l_prev := prev; l_breaks := breaks;
+           l_hash := h1; l_kept := e :: l_kept s |}
+      else
+        let o2 := if N.even i then OClunk e else ORemove e in
+        let '(st2, c2, _) := step msize st1 o2 AUnit in
+        {| l_sys := st2; l_i := (i + 1)%N; l_walks := walks; l_prev := prev; l_breaks := breaks;
+           l_hash := hcall h1 c2; l_kept := l_kept s |}
+  | _ =>
+      {| l_sys := st1; l_i := (i + 1)%N; l_walks := walks; l_prev := prev; l_breaks := breaks;
+         l_hash := h1; l_kept := l_kept s |}
+  end.
+
+Definition long_run (msize : Z) (rounds keep_every : N) : sexp :=
+  let '(st0, c0, r0) := step msize sys0 (OAttach [] [] AfNil) (AQid (128, 0, 1)%N) in
+  let root := match r0 with CEnt e => e | _ => noEnt end in
+  let s0 := {| l_sys := st0; l_i := 0; l_walks := 0; l_prev := c_fid root; l_breaks := [];
+               l_hash := hcall 0 c0; l_kept := [] |} in
+  let s := N.iter rounds (long_round msize keep_every root) s0 in
+  let live := sort_fids (map c_fid (s_live (l_sys s))) in
+  (* let go of everything held: the kept entries oldest first, then the root *)
+  let '(stf, hf) :=
+    fold_left (fun '(st, h) e => let '(st', c, _) := step msize st (OClunk e) AUnit in (st', hcall h c))
+              (rev (l_kept s) ++ [root])%list (l_sys s, l_hash s) in
+  SList [ssym "long";
+         SList [ssym "walks"; snat (l_walks s)];
+         SList [ssym "breaks"; SList (rev (l_breaks s))];
+         SList [ssym "hash"; snat hf];
+         SList [ssym "live"; SList (map snat live)];
+         SList [ssym "bound"; SList (map snat (sort_fids (s_srv stf)))];
+         SList [ssym "scripted"; snat 1]].
+
 Definition run_case (c : sexp) : sexp :=
   if head_is c "cfs" then
     SList (run_ops (get_Z (arg c 0)) sys0 [] (tl (tl (get_list c))))
+  else if head_is c "long" then long_run (get_Z (arg c 0)) (get_N (arg c 1)) (get_N (arg c 2))
   else SList [ssym "unknown-case"].
 
 Definition run_line (line : list N) : list N := print_sexp (run_case (parse_sexp line)).
